@@ -396,7 +396,9 @@ def resolveSequence (paraLvl : Nat) (ks : List K) (seq : List (Nat × Nat)) : Li
     let eos := dirOfLevel (max lastK.level after)
     let e := dirOfLevel lvl
     let ts0 := pos.map (fun p => (ks.getD p default).ty)
-    let origNSM := ts0.map (· == NSM)
+    -- "original bidirectional character type NSM": the character's own Bidi_Class, not the
+    -- type an override (X6) may have given it (as in the reference implementations' `initialTypes`)
+    let origNSM := pos.map (fun p => (ks.getD p default).cls == NSM)
     let bs := pos.map (fun p => (ks.getD p default).brk)
     let ts1 := weak sos ts0
     let ts2 := (bracketPairs ts1 bs).foldl (n0One sos e origNSM) ts1
